@@ -97,6 +97,38 @@ func (c *Ctx) WriteShard(imports, caseType string, cases []string, descr []any) 
 	c.Sum.Shards = append(c.Sum.Shards, name)
 }
 
+// WriteShardWith: like WriteShard, with extra definitions before the cases and a custom expression to evaluate.
+func (c *Ctx) WriteShardWith(imports, caseType string, cases []string, descr []any, preamble, runExpr string) {
+	name := fmt.Sprintf("cases_%03d", c.shardN)
+	c.shardN++
+	var b strings.Builder
+	b.WriteString("From AS Require Import Base.Str Corr.Common " + imports + ".\n")
+	b.WriteString("From Coq Require Import Uint63.\nOpen Scope string_scope.\n")
+	var body strings.Builder
+	for i, cs := range cases {
+		fmt.Fprintf(&body, "Definition c%d : %s := %s.\n", i, caseType, cs)
+	}
+	for _, d := range gal.InternDefs() {
+		b.WriteString(d + "\n")
+	}
+	gal.ResetIntern()
+	b.WriteString(preamble)
+	b.WriteString(body.String())
+	b.WriteString("Definition cases : list " + caseType + " := [")
+	for i := range cases {
+		if i > 0 {
+			b.WriteString("; ")
+		}
+		fmt.Fprintf(&b, "c%d", i)
+	}
+	b.WriteString("].\n")
+	b.WriteString("Definition R := Eval vm_compute in " + runExpr + ".\nPrint R.\n")
+	must(os.WriteFile(filepath.Join(c.Out, name+".v"), []byte(b.String()), 0o644))
+	js, _ := json.Marshal(descr)
+	must(os.WriteFile(filepath.Join(c.Out, name+".json"), js, 0o644))
+	c.Sum.Shards = append(c.Sum.Shards, name)
+}
+
 func must(err error) {
 	if err != nil {
 		panic(err)
